@@ -3,6 +3,7 @@ reviewed tree; lower bounds) and the argument each rule set supports."""
 import rules_h as RH
 import rules_k as RK
 import rules_o as RO
+import rules_l as RL
 
 COMBINATORS = ("merge", "flat_map", "concat", "zip", "combine_latest", "amb", "take_until",
                "skip_until", "sample", "switch_on_next", "sequence_equal")
@@ -74,6 +75,12 @@ def rules_for(pid):
             ("S-finalize-shape", lambda c: RO.s_finalize_shape(c.P, c.E), 4),
             ("R1", lambda c: RH.r1_retry_drops_first(c.P, c.E, c.H), 3),
         ],
+        "C07": [
+            ("L1", lambda c: RL.l1_reentrancy(c.P, c.E, c.H), 40),
+            ("L2", lambda c: RL.l2_leaf_locks(c.P, c.E), 15),
+            ("L4", lambda c: RL.l4_producer_polling(c.P, c.E), 6),
+            ("F-no-guard-call", lambda c: RO.f_no_guard_call(c.P, c.E), 3),
+        ],
         "C14": [
             ("K-fresh-state", lambda c: RK.k_fresh_state(c.P, c.E), 60),
             ("K-fw-immutable", lambda c: RK.k_fw_immutable(c.P, c.E), 3),
@@ -109,6 +116,13 @@ EXPLANATION = {
            "by upstream_abort_observe(serial) (sink_complete removes the entry without running it); "
            "finalize runs every entry, clears the map, takes-and-runs on_finalize; sinks finalize after a "
            "terminal and when the subscriber is gone; recovery handlers drop the failed upstream.",
+    "C07": "Three clauses. L1 (same-thread re-entrancy): for every guard (118 acquisitions, liveness exact from MIR "
+           "Drop/StorageDead/moves) and every call inside its live range that may reach code held in a USER slot "
+           "(fixpoint over the resolved call graph; teardown slots resolved to the crate closures stored in them), "
+           "no conflicting acquisition of the same cell instance is reachable on re-entry.  L2: infrastructure locks "
+           "are leaf locks (no user code, no nested acquisition).  L4: every emitting loop polls is_subscribed() and "
+           "can leave on its false edge.  Cross-thread cyclic waits among instances of the same lock classes along "
+           "the teardown hierarchy are NOT decided (needs the runtime pipeline topology).",
     "C14": "The closure given to Observable::create is Fn+Send+Sync, so state that survives one subscription "
            "must sit behind interior mutability in a captured value; every capture of every SOURCE closure of "
            "a cold constructor is classified by the interior-mutable leaves of its type (K-fresh-state); "
